@@ -391,6 +391,15 @@ def c04_5(ck, prog):
                     'the link unlinked and re-inserted by bus_service_swap_owner is not the head of the queue')
 
 
+def c04_6(ck, prog):
+    r = ck.rule('C04.6', 'names are recognised by whole-string equality: the comparators the name code relies on '
+                '(_dbus_string_equal_c_str for org.freedesktop.DBus, _dbus_string_equal) answer TRUE only when '
+                'every byte was compared and both strings are exhausted', 'TS',
+                breaks='a proper prefix of org.freedesktop.DBus is treated as the reserved bus name: requests for '
+                       'it are refused and the queries disagree about its owner', floor=2)
+    lib.whole_string_equality(prog, r)
+
+
 def run(ck):
     ck.explanation = (
         'Static rules over bus/services.c and bus/driver.c: (DEC) the if-chains of bus_registry_acquire_service, '
@@ -408,3 +417,4 @@ def run(ck):
         c04_3(ck, prog)
         c04_4(ck, prog)
         c04_5(ck, prog)
+        c04_6(ck, prog)
